@@ -38,6 +38,8 @@ def cases(tier, seed):
             for rev in (False, True):
                 cs.append({'t': 'real', 'key': k, 'exp': exp, 'rev': rev})
     cs.append({'t': 'multi'})
+    for k in keys[:4] if tier == 'quick' else keys:
+        cs.append({'t': 'restate', 'key': k})
     cs.append({'t': 'default_issues'})
     return cs
 
@@ -69,6 +71,8 @@ def run_case(ctx, d):
             _real(ctx, d, pgpy, SecurityIssues)
         elif d['t'] == 'multi':
             _multi(ctx, d, pgpy, SecurityIssues)
+        elif d['t'] == 'restate':
+            _restate(ctx, d, pgpy, SecurityIssues)
         elif d['t'] == 'default_issues':
             _default(ctx, d, pgpy, SecurityIssues)
 
@@ -213,6 +217,42 @@ def _real(ctx, d, pgpy, SI):
     ctx.nontrivial(d)
     if len(ctx.samples) < 5:
         ctx.sample({'case': d, 'verdict_on_document': bool(pub.verify(doc, sig)), 'is_expired': pub.is_expired})
+
+
+def _restate(ctx, d, pgpy, SI):
+    """the verdict follows the *current* state of the very same key object: valid -> expired -> valid again -> expired (new self-signatures
+    with / without a key expiry are attached between verifications), each state verified several times"""
+    from pgpy.constants import KeyFlags, SignatureType
+    k = _mk(d['key'], 'none', False)
+    pub = k.pubkey
+    keep = [pub]
+    doc = 'restate subject'
+    sig = k.sign(doc)
+    t0 = datetime.now(timezone.utc).replace(microsecond=0)    # later than the key's first self-signature, which was made a moment ago
+    states = [('valid', None), ('expired', timedelta(days=200)), ('valid', None), ('expired', timedelta(days=10)), ('valid', timedelta(days=365 * 60))]
+    for i, (name, kexp) in enumerate(states):
+        if i:
+            kw = {'created': t0 + timedelta(seconds=30 * i), 'usage': {KeyFlags.Sign, KeyFlags.Certify}}
+            if kexp is not None:
+                kw['key_expiration'] = kexp
+            for obj in (k, pub):
+                u = obj.userids[0]
+                u |= k.certify(k.userids[0], SignatureType.Positive_Cert, **kw) if obj is k else pgpy.PGPSignature.from_blob(bytes(list(k.userids[0].__sig__)[-1]))
+        for rep in range(3):
+            for label, subj, s_, correct in (('right', doc, sig, True), ('wrong', doc + '!', sig, False)):
+                sv = pub.verify(subj, s_)
+                ctx.count('real_verdicts')
+                ctx.count('evaluations')
+                if name == 'expired':
+                    ctx.count('real_expired')
+                check_partition(ctx, sv, {'restate': d['key'], 'state': i})
+                expect = correct and name == 'valid'
+                if pub.is_expired != (name == 'expired'):
+                    ctx.fail('expiry-state-not-followed', {'key': d['key'], 'state_index': i, 'state': name, 'is_expired': pub.is_expired})
+                if bool(sv) != expect:
+                    ctx.fail('verdict-does-not-follow-current-key-state', {'key': d['key'], 'state_index': i, 'state': name, 'repeat': rep, 'signature': label, 'got': bool(sv), 'expected': expect,
+                                                                          'history': [n for n, _ in states[:i + 1]]})
+    ctx.nontrivial(d)
 
 
 def _multi(ctx, d, pgpy, SI):
